@@ -92,10 +92,14 @@ def check(repo: Repo, rep: Report) -> None:
         sizes = SIZES + ([(h, ww) for h in range(0, 5) for ww in range(0, 5) if h == 4 or ww == 4] if rep.tier == "thorough" else [])
         for H, W in sizes:
             s = w.solver()
-            fr = w.cw.new("BoolGridFrame", s, H, W)
+            st_, fr = call(lambda: w.cw.new("BoolGridFrame", s, H, W))
+            if st_ != "ok":
+                res["ALG-4"] = res["ALG-4"] or f"constructing BoolGridFrame(solver, {H}, {W}) raises {fr}"
+                continue
             hor, ver = fr.attrs["horizontal"], fr.attrs["vertical"]
             if tuple(hor.attrs["shape"]) != (H + 1, W) or tuple(ver.attrs["shape"]) != (H, W + 1):
                 res["ALG-4"] = res["ALG-4"] or f"frame {H}x{W}: default arrays have shapes {hor.attrs['shape']} / {ver.attrs['shape']}"
+                continue
             hid = {(r, c): ident(hor.attrs["data"][r * W + c]) for r in range(H + 1) for c in range(W)}
             vid = {(r, c): ident(ver.attrs["data"][r * (W + 1) + c]) for r in range(H) for c in range(W + 1)}
             # ALG-1
